@@ -108,6 +108,13 @@ class Check(PropertyCheck):
                     [(rng.sample(range(4), 2), rng.randint(1, 6))] +
                     [([rng.randrange(2)], rng.randint(1, 4)) for _ in range(rng.randint(2, 3))]]
             family = "flex_finished_job"
+        elif search and rng.random() < (0.4 if getattr(self, "in_search", False) else 0.12):
+            # two machines, jobs of different lengths, small durations: last operations of short jobs compete with operations
+            # that still have a chain behind them (which of them must go first differs from instance to instance)
+            lens = [1, 2, 3]
+            rng.shuffle(lens)
+            jobs = [[([rng.randrange(2)], rng.randint(1, 4)) for _ in range(n)] for n in lens]
+            family = "final_vs_chain"
         elif search:
             family, jobs = gen.gen_instance(rng, fam, max_jobs=3, max_machines=3, max_ops=3, max_dur=5)
             if gen.num_ops(jobs) > 7 and gen.is_flexible(jobs):
